@@ -185,6 +185,7 @@ theorem runHandler_rejected (hf : HandlerFact) (hA : hf.hasAuth = true) (hG : hf
       | accept p => simp [ho, Inner.isReject] at hrej
       | acceptAnon => simp [ho, Inner.isReject] at hrej
       | reject k => rfl
+      | rejectCtx k p => rfl
       | nilNil => rfl
     simp [runHandler, hA, hG, hnone]
   | cons k rest ih =>
@@ -280,6 +281,8 @@ example : serve table cfgAll (reqTo "POST" ["vgi", "ex1", "exchange"] .valid (.r
     = { gate := .denied, events := [], served := .route .continuation } := by decide
 example : serve table cfgAll (reqTo "POST" ["vgi", "pr1", "init"] .valid .acceptAnon)
     = { gate := .passed, events := [.init, .state], served := .route .streamInit } := by decide
+example : serve table { cfgAll with pkce := false } (reqTo "POST" ["vgi", "u1"] .valid (.rejectCtx .rpcValue "introspector"))
+    = { gate := .denied, events := [], served := .route .rpcUnary } := by decide
 -- exempt routes under a refusing authenticator
 example : serve table cfgAll (reqTo "GET" ["health"] .empty (.reject .rpcValue))
     = { gate := .passed, events := [], served := .route .health } := by decide
